@@ -564,6 +564,7 @@ func runC10(c *kit.Ctx) {
 
 	c.StartRule("R3", "size function = bytes written = header lengths; reader's overhead constant = writer's", 5)
 	cellListRejectsOnlyWhatACellRejects(c)
+	cellDecoderJudgesLengthsOnly(c)
 	mutationConstructorsAcceptEveryLegalSize(c)
 	eng := bounds.New(p)
 	eng.CopyAsLenSrc = true
